@@ -39,7 +39,7 @@ def run(ev, vd):
     def job(j):
         k, (mode, binp, topo, kinds) = j
         out = os.path.join(BUILD, "tmp", "bar_%d.ndjson" % k)
-        rc, o, dt = conc.run_harness(binp, [out, ev.seed * 100 + k, tier(), mode, kinds], topo=topo, timeout=300,
+        rc, o, dt = conc.run_harness(binp, [out, ev.seed * 100 + k, tier(), mode, kinds], topo=topo, timeout=(900 if tier() == "thorough" else 300),
                                      env={"VERIF_SCHED_OUT": os.path.join(BUILD, "replay", "C05-sched-%d.txt" % k)})
         return j, out, rc, o
     os.makedirs(os.path.join(BUILD, "replay"), exist_ok=True)
